@@ -246,7 +246,48 @@ func materialise(cfg *ExecConfig) string {
 	return root
 }
 
-func classifyExecErr(err error, t *ExecTarget) string {
+// execExpectedStop: where the documented protocol ends early for this target ("filetype", "hook" or ""), and whether
+// a file the run reaches has a file type that is not registered in the context
+func execExpectedStop(cfg *ExecConfig, t *ExecTarget) (stopped string, unknown bool) {
+	files := map[string]string{}
+	for _, g := range t.Gens {
+		if g.FileType == "" {
+			return "filetype", false
+		}
+		if ft, ok := files[g.Filename]; ok && ft != g.FileType {
+			return "filetype", false
+		}
+		files[g.Filename] = g.FileType
+		if g.InitErr || g.FinErr {
+			return "hook", false
+		}
+		for _, id := range intersectOrder(cfg.Order, t.Accept, g.Accept) {
+			if ContainsInt(g.TypeErr, id) {
+				return "hook", false
+			}
+		}
+	}
+	for _, ft := range files {
+		known := false
+		for _, k := range cfg.FileTypes {
+			if k == ft {
+				known = true
+			}
+		}
+		if !known {
+			unknown = true
+		}
+	}
+	return "", unknown
+}
+
+// classifyExecErr maps the error of a run to a small enum.  Hook errors are recognised by the text the harness's own
+// hooks return, a refused directory by the operating system's "mkdir" prefix; file-type errors are recognised by the
+// situation, not by the wording of the message (a reworded message is not a violation of any property): a non-hook
+// error of a target whose protocol ends at an empty or conflicting file type is "filetype", one of a target that
+// reaches a file of an unregistered type is "unknowntype".  File errors are identified by the file names they mention,
+// which C10 and C13 do speak about.
+func classifyExecErr(err error, t *ExecTarget, cfg *ExecConfig) string {
 	if err == nil {
 		return "ok"
 	}
@@ -254,12 +295,14 @@ func classifyExecErr(err error, t *ExecTarget) string {
 	switch {
 	case strings.Contains(m, ExecHookErr):
 		return "hook"
-	case strings.Contains(m, "must specify a file type"), strings.Contains(m, "already has type"):
-		return "filetype"
-	case strings.Contains(m, "does not exist in the context"):
-		return "unknowntype"
 	case strings.HasPrefix(m, "mkdir "):
 		return "mkdir"
+	}
+	switch stopped, unknown := execExpectedStop(cfg, t); {
+	case stopped == "filetype":
+		return "filetype"
+	case stopped == "" && unknown:
+		return "unknowntype"
 	}
 	seen := map[string]bool{}
 	var names []string
@@ -302,7 +345,7 @@ func ExecProperty(impl ExecImpl, prop string, gen func(c *Ctx, v2 bool)) Propert
 				}()
 				err = impl.RunTarget(cfg, i, root, rec)
 			}()
-			cls := classifyExecErr(err, t)
+			cls := classifyExecErr(err, t, cfg)
 			classes = append(classes, cls)
 			if cls == "unknowntype" {
 				anyUnknown = true
@@ -338,7 +381,7 @@ func ExecProperty(impl ExecImpl, prop string, gen func(c *Ctx, v2 bool)) Propert
 				}()
 				expected := snapshot(groot).files
 				os.RemoveAll(groot)
-				execOracleVerify(cfg, t, cls, err, pre, post, expected, classifyExecErr(gerr, t), fail)
+				execOracleVerify(cfg, t, cls, err, pre, post, expected, classifyExecErr(gerr, t, cfg), fail)
 			}
 		}
 		// C10: generating and then verifying the same inputs always succeeds
